@@ -211,6 +211,13 @@ class BranchMetadata:
         self.context = template_context
         self.results = {}
 
+        """
+        Set when a branch is terminated although nothing in the execution has
+        failed, that is when the execution is being cancelled from outside (by
+        the Task of the parent execution that launched it synchronously).
+        """
+        self.cancelled = False
+
 class StateEngine(object):
     def __init__(self, config):
         """
@@ -1860,14 +1867,23 @@ class StateEngine(object):
                     asl_state_collect_results(state_type)
             else:
                 """
-                If task_terminated just tidy up self.branch_metadata for current
-                execution_arn otherwise end the execution.
+                If task_terminated because a peer Branch or Iteration failed
+                just tidy up self.branch_metadata for current execution_arn
+                (that failure ends or continues the execution), otherwise end
+                the execution. The latter includes a Task or Wait state outside
+                any Branch, and Branches terminated although nothing in this
+                execution failed: there the termination came from the Task of
+                a parent execution, so this execution has to be ended here.
                 """
                 if task_terminated:
-                    if execution_arn in self.branch_metadata:
+                    metadata = self.branch_metadata.get(execution_arn)
+                    if (metadata and not metadata.cancelled and
+                        (state_type == "Map" or state_type == "Parallel")):
                         self.check_pending_results(execution_arn)
                     else:
-                        self.end_execution(state_machine, state_type, event)           
+                        if metadata:
+                            metadata.cancelled = False
+                        self.end_execution(state_machine, state_type, event)
                 else:
                     self.end_execution(state_machine, state_type, event)
 
@@ -3394,6 +3410,15 @@ class StateEngine(object):
             data = branch_info["Input"]  # Get saved raw input
 
             if error:
+                """
+                A terminated Branch while no results of this execution are
+                marked as terminated means that the whole execution is being
+                cancelled from outside, see handle_terminal_state.
+                """
+                if (error == "Task.Terminated" and not
+                    any("terminated" in r for r in all_branch_results.values())):
+                    self.branch_metadata[execution_arn].cancelled = True
+
                 # Set range to terminate subsequent branches/iterations
                 branch_results["terminated"] = str(start) + ":" + str(end)
 
